@@ -1,4 +1,5 @@
 import Pike.Props.C02
+import Pike.Facts
 /-
 C10 — store failures degrade to memory-only caching, never to client errors.
 In `Sys` every store call carries its outcome as an event parameter (`get t so`, `saved t ok`,
@@ -8,6 +9,13 @@ faults: errors, missing keys, arbitrary (garbled) records, lost writes and delet
 namespace Pike
 namespace C10
 open Sys Entry
+
+/-- Obligation on the extracted facts (store/*.go): every store constructor returns the interface type
+`Store`, so a store that fails to open yields a nil interface and `NewDispatcher` falls back to
+memory-only caching (a concrete pointer result would make the failed open a non-nil interface
+holding a nil pointer, and the first lookup would dereference it under the entry mutex). -/
+theorem facts_store_constructors_return_interface :
+    Facts.storeConstructorResults.all (fun s => s = "Store") = true ∧ Facts.storeConstructorResults ≠ [] := by decide
 
 /-- FULL STATEMENT (protocol).  Whatever the store does, every reachable state satisfies the
 protocol invariant; hence single flight (C01), progress, release of all waiters on every
